@@ -2,5 +2,5 @@
 From Coq Require Extraction ExtrOcamlBasic.
 From Arsenal Require Import Util Gran Tlsf Pass Defrag.
 Extraction Language OCaml.
-Separate Extraction Defrag.world_init Defrag.wstep Defrag.pending
+Separate Extraction Defrag.world_init Defrag.world_init_g Defrag.wstep Defrag.wstep_f Defrag.pending
   Tlsf.regions Tlsf.validate Tlsf.allocation_count Tlsf.sum_free_size Pass.ps_zero.
